@@ -310,6 +310,13 @@ func checkC10(w *World) {
 			}
 			n2++
 			_, local := fa.X.(*ssa.Alloc)
+			// the root is made its own parent: the object a constructor just returned, in the same function, linked to
+			// itself (nothing else has seen it yet)
+			if c, isCall := fa.X.(*ssa.Call); isCall && role == "parent" && st.Val == fa.X {
+				if _, isCtor := sf.Ctors[staticCallee(c)]; isCtor {
+					local = true
+				}
+			}
 			construct := fmt.Sprintf("store to the %s field of the object under construction in %s", role, fn.Name())
 			if !local {
 				// identified by what is written through, not by the name of the enclosing function
@@ -867,6 +874,30 @@ func checkC10(w *World) {
 		if fresh {
 			pos0 = true
 		}
+	}
+	// a root made by a cursor constructor called with the constant position 0, then made its own parent
+	if !(rootOK && selfParent && pos0) {
+		allInstrs(entry, func(in ssa.Instruction) {
+			st, ok := in.(*ssa.Store)
+			if !ok {
+				return
+			}
+			fa, ok := st.Addr.(*ssa.FieldAddr)
+			if !ok || sf.roleOf(fa.Field) != "parent" || st.Val != fa.X {
+				return
+			}
+			c, ok := fa.X.(*ssa.Call)
+			if !ok {
+				return
+			}
+			ci, isCtor := sf.Ctors[staticCallee(c)]
+			if !isCtor {
+				return
+			}
+			if k, isK := constInt(c.Call.Args[ci.PosParam]); isK && k == 0 {
+				rootOK, selfParent, pos0 = true, true, true
+			}
+		})
 	}
 	w.check(P, "R10.7", "root: position 0 and its own parent", entry.Pos(), rootOK && selfParent && pos0, fmt.Sprintf("root.parent = root: %v; root.pos = 0: %v", selfParent, pos0))
 	nEnd := 0
